@@ -156,6 +156,14 @@ def eval_value(e: ast.AST, env: Dict[str, Any]) -> Any:
         return r
     if isinstance(e, ast.IfExp):
         return eval_value(e.body, env) if eval_value(e.test, env) else eval_value(e.orelse, env)
+    if isinstance(e, ast.Compare) and len(e.ops) > 1:
+        # a < b <= c: the conjunction of the links (each operand folded once)
+        vals = [eval_value(e.left, env)] + [eval_value(c_, env) for c_ in e.comparators]
+        for i_, op_ in enumerate(e.ops):
+            link = ast.Compare(left=ast.Constant(value=vals[i_]), ops=[op_], comparators=[ast.Constant(value=vals[i_ + 1])])
+            if not eval_value(link, {}):
+                return False
+        return True
     if isinstance(e, ast.Compare) and len(e.ops) == 1:
         a, b = eval_value(e.left, env), eval_value(e.comparators[0], env)
         op = e.ops[0]
